@@ -620,6 +620,16 @@ class Runner:
                 out.append(('f:' + fld, None))
         return out
 
+    def inv_spec(self, pre_loop, inv, st, ghost=None):
+        """evaluate a loop invariant; before_loop(e) inside it denotes e in the state just before the loop was entered"""
+        ex = self.ex
+        saved = getattr(ex, 'loop_pre_state', None)
+        ex.loop_pre_state = pre_loop
+        try:
+            return ex.spec(inv, st, old=ex.entry, ghost=ghost)
+        finally:
+            ex.loop_pre_state = saved
+
     def s_While(self, s, st):
         ex = self.ex
         if ex.inline_depth:
@@ -632,11 +642,11 @@ class Runner:
         pre_loop = st.fork()
         # 1. invariant holds on entry
         for j, inv in enumerate(invs):
-            ex.prove('inv-init/%d/%d' % (k, j), st.pc, ex.spec(inv, st, old=ex.entry), detail='loop %d line %d: %s' % (k, s.lineno, inv if isinstance(inv, str) else 'callable'))
+            ex.prove('inv-init/%d/%d' % (k, j), st.pc, self.inv_spec(pre_loop, inv, st), detail='loop %d line %d: %s' % (k, s.lineno, inv if isinstance(inv, str) else 'callable'))
         # 2. arbitrary iteration
         auto = self.havoc_loop(st, s.body + [ast.Expr(s.test)], k)
         for inv in invs:
-            st.assume(ex.spec(inv, st, old=ex.entry))
+            st.assume(self.inv_spec(pre_loop, inv, st))
         head = st.fork()
         c = ex.truthy(st, ex.ev(s.test, st))
         outs = self.drain()
@@ -650,7 +660,7 @@ class Runner:
         for o in bouts:
             if o.kind in ('next', 'continue'):
                 for j, inv in enumerate(invs):
-                    ex.prove('inv-preserved/%d/%d' % (k, j), o.st.pc, ex.spec(inv, o.st, old=ex.entry), detail='loop %d line %d: %s' % (k, s.lineno, inv if isinstance(inv, str) else 'callable'))
+                    ex.prove('inv-preserved/%d/%d' % (k, j), o.st.pc, self.inv_spec(pre_loop, inv, o.st), detail='loop %d line %d: %s' % (k, s.lineno, inv if isinstance(inv, str) else 'callable'))
                 for n, ty in auto:
                     if n in o.st.env:
                         ex.prove('inv-preserved/%d/type-%s' % (k, n), o.st.pc, ex.type_pred(ty, o.st.env[n].t, o.st), detail='local %s keeps type %s' % (n, ty))
@@ -729,24 +739,23 @@ class Runner:
                     elem = lambda i: Val(mk_s(z3.SubString(sx, i, 1)), 'char')
                 q = z3.Empty(SeqV)
             else:
-                q0 = z3.Const(fresh_name('iter'), SeqV)
-                st.assume(q0 == q)
-                q = q0
+                # the sequence that is iterated is the value of this term before the loop (a snapshot: z3 terms are immutable)
                 length = z3.Length(q)
                 elem = lambda i: Val(q[i], None)
         outs = self.drain()
         ki = z3.Int(fresh_name('loop_i'))
         gh = {'loop_i': Val(mk_i(ki), 'int'), 'loop_seq': Val(q if rng is None else z3.Empty(SeqV), 'seq')}
         st0 = st.fork()
+        pre_loop = st0
         for j, inv in enumerate(invs):
             st_i = st.fork(); st_i.assume(ki == 0)
-            ex.prove('inv-init/%d/%d' % (k, j), st_i.pc, ex.spec(inv, st_i, old=ex.entry, ghost=gh), detail='loop %d line %d: %s' % (k, s.lineno, inv))
+            ex.prove('inv-init/%d/%d' % (k, j), st_i.pc, self.inv_spec(pre_loop, inv, st_i, gh), detail='loop %d line %d: %s' % (k, s.lineno, inv))
         auto = self.havoc_loop(st, s.body + [ast.Assign([s.target], ast.Constant(None), lineno=s.lineno)], k)
         tnames = {n.id for n in ast.walk(s.target) if isinstance(n, ast.Name)}
         auto = [(n, ty) for n, ty in auto if n not in tnames]      # the loop variable is rebound by the loop itself
         st.assume(z3.And(ki >= 0, ki <= length))
         for inv in invs:
-            st.assume(ex.spec(inv, st, old=ex.entry, ghost=gh))
+            st.assume(self.inv_spec(pre_loop, inv, st, gh))
         head = st.fork()
         body_st = st.fork(); body_st.assume(ki < length)
         exit_st = st.fork(); exit_st.assume(ki == length)
@@ -765,7 +774,7 @@ class Runner:
         for o in bouts:
             if o.kind in ('next', 'continue'):
                 for j, inv in enumerate(invs):
-                    ex.prove('inv-preserved/%d/%d' % (k, j), o.st.pc, ex.spec(inv, o.st, old=ex.entry, ghost=gh2), detail='loop %d line %d: %s' % (k, s.lineno, inv))
+                    ex.prove('inv-preserved/%d/%d' % (k, j), o.st.pc, self.inv_spec(pre_loop, inv, o.st, gh2), detail='loop %d line %d: %s' % (k, s.lineno, inv))
                 for n, ty in auto:
                     if n in o.st.env:
                         ex.prove('inv-preserved/%d/type-%s' % (k, n), o.st.pc, ex.type_pred(ty, o.st.env[n].t, o.st), detail='local %s keeps type %s' % (n, ty))
